@@ -31,6 +31,8 @@ SCEN = {
     'nested-dirs': [('bf', 'd/a/f1', 'ok'), ('bf', 'd/b/f2', 'ok')],
     'one-fails': [('bf', 'd/f1', 'raise_after'), ('bf', 'd/f2', 'ok')],
     'both-fail': [('bf', 'd/a/f1', 'raise_before'), ('bf', 'd/f2', 'raise_after')],
+    # both workers fail below two shared new directory levels
+    'both-fail-deep': [('bf', 'd/a/f1', 'raise_after'), ('bf', 'd/a/f2', 'raise_before')],
     'deep-shared': [('bf', 'd/a/b/f1', 'ok'), ('bf', 'd/a/f2', 'ok')],
     'in-subbuild': [('sb-bf', 'd/f1', 'ok'), ('bf', 'd/f2', 'ok')],
     # the same output from two threads: equivalent to the sequential order in which the winner goes first
@@ -54,6 +56,7 @@ def families(tier):
         {'name': 'one-fails', 'params': {'P': 1, 'hist': 'BT'}, 'weight': 1},
         {'name': 'same-dir', 'params': {'P': 1, 'hist': 'T', 'lines': True}, 'weight': 2},
         {'name': 'duplicate', 'params': {'P': 2, 'hist': 'T'}, 'weight': 2},
+        {'name': 'both-fail-deep', 'params': {'P': 2, 'hist': 'T'}, 'weight': 2},
         {'name': 'duplicate', 'params': {'P': 1, 'hist': 'BT'}, 'weight': 1},
         {'name': 'same-dir', 'params': {'P': 2, 'hist': 'T'}, 'weight': 2},
         {'name': 'one-fails', 'params': {'P': 2, 'hist': 'T'}, 'weight': 2},
